@@ -655,8 +655,17 @@ class Fn:
                     logtxt += "let %s := upd %s %s %s in\n" % (an, an, cnt, av)
             self.ncalls += 1
             rv = "c%d_%s" % (self.ncalls, label)
+            hv = self.spec.get("oracle_havoc", {}).get(label, [])
+            for hp in hv:
+                # the call may change this (scalar) path: after the k-th call it holds (hv_<label>_<path> k)
+                ho = self.add_input(Var("hv_%s_%s" % (label, hp), "arr")).name
+                self.add_input(Var(hp, "Z"))
+                if hp not in self.written:
+                    self.written.append(hp)
+                havoc += "let %s := %s %s in\n" % (hp, ho, cnt)
             note = "calls to %s: the k-th result is (%s k) for an arbitrary stream; %s counts them " \
-                   "(assumed without effect on the modelled paths)" % (name or "the function pointer " + label, orc, cnt)
+                   "(assumed without effect on the modelled paths%s)" % (name or "the function pointer " + label, orc, cnt,
+                   (" other than " + ", ".join(hv) + ", which hold arbitrary values hv_%s_<path> k afterwards" % label) if hv else "")
             if note not in self.notes:
                 self.notes.append(note)
             self.pre.append((logtxt + havoc + "let %s := %s %s in\nlet %s := %s + 1 in\n" % (rv, orc, cnt, cnt, cnt), ""))
@@ -731,6 +740,8 @@ class Fn:
                     pass
                 elif name in self.spec.get("oracle_calls", []):
                     acc.append(("cnt_" + cname(name), "Z"))
+                    for hp in self.spec.get("oracle_havoc", {}).get(cname(name), []):
+                        acc.append((hp, "Z"))
                     if cname(name) in self.spec.get("logged_calls", []):
                         for ai in range(len(n["inner"]) - 1):
                             acc.append(("arg%d_%s" % (ai, cname(name)), "arr"))
@@ -738,6 +749,8 @@ class Fn:
                     try:
                         lb = self.path_of(_)[0]
                         acc.append(("cnt_" + lb, "Z"))
+                        for hp in self.spec.get("oracle_havoc", {}).get(lb, []):
+                            acc.append((hp, "Z"))
                         if lb in self.spec.get("logged_calls", []):
                             for ai in range(len(n["inner"]) - 1):
                                 acc.append(("arg%d_%s" % (ai, lb), "arr"))
@@ -905,6 +918,20 @@ class Fn:
                 desugar(s["inner"][0]["type"]).endswith("*") and \
                 s["inner"][0]["referencedDecl"]["id"] not in self.param_ids:
             if self.pointer_local_bind(s["inner"][0]["referencedDecl"]["id"], s["inner"][1]) == "alias":
+                return k()
+        if kind == "BinaryOperator" and s["opcode"] == "=" and s["inner"][0].get("kind") == "DeclRefExpr" and \
+                s["inner"][0]["referencedDecl"].get("name") in self.spec.get("object_locals", []) and \
+                desugar(s["inner"][0]["type"]).endswith("*") and \
+                not any(n_.get("kind") == "CallExpr" for n_ in walk(s["inner"][1])):
+            # `job = qb_list_first_entry(...)' (a GNU statement expression): an object_local pointer only stands for
+            # the object it points to (its fields are the paths <name>_<field>); its numeric value is never needed
+            try:
+                self.ev(lambda: self.expr(s["inner"][1]))
+            except Unsupported:
+                note = "the value assigned to the object_local pointer %s is outside the subset and is not represented" \
+                       % s["inner"][0]["referencedDecl"].get("name")
+                if note not in self.notes:
+                    self.notes.append(note)
                 return k()
         if kind == "BinaryOperator" and s["opcode"] == "=":
             p = self.path_of(s["inner"][0])
@@ -1301,8 +1328,45 @@ def indent(txt, n=2):
     return "\n".join(" " * n + l for l in txt.split("\n"))
 
 
+def _gotos_outside_loops(n, lid, acc, in_loop=False):
+    if n.get("kind") == "GotoStmt" and n.get("targetLabelDeclId") == lid:
+        acc.append((n, in_loop))
+    inner_loop = in_loop or n.get("kind") in ("WhileStmt", "ForStmt", "DoStmt")
+    for c in n.get("inner", []):
+        if isinstance(c, dict) and c:
+            _gotos_outside_loops(c, lid, acc, inner_loop)
+
+
+def rewrite_backward_goto(decl):
+    """`L: S1; ...; Sn' at the top level of a function body, with `goto L' inside S1..Sn (not inside a loop), is
+    `while (1) { S1; ...; Sn; break; }' with every such goto replaced by `continue' (same control flow)."""
+    body = next(c for c in decl.get("inner", []) if c.get("kind") == "CompoundStmt")
+    lst = body.get("inner", [])
+    for j, s_ in enumerate(lst):
+        if s_.get("kind") != "LabelStmt":
+            continue
+        acc = []
+        for t in lst[j:]:
+            _gotos_outside_loops(t, s_.get("declId"), acc)
+        if not acc or any(il for _, il in acc):
+            continue
+        for g, _ in acc:
+            g.clear()
+            g["kind"] = "ContinueStmt"
+        one = {"kind": "IntegerLiteral", "value": "1", "type": {"qualType": "int"}}
+        newbody = {"kind": "CompoundStmt", "inner": [s_["inner"][0]] + lst[j + 1:] + [{"kind": "BreakStmt"}]}
+        body["inner"] = lst[:j] + [{"kind": "WhileStmt", "inner": [one, newbody]}]
+        return True
+    return False
+
+
 def translate_function(tu, name, spec, done):
-    f = Fn(tu, tu.function(name), spec, done)
+    decl = tu.function(name)
+    rewrote = rewrite_backward_goto(decl)
+    f = Fn(tu, decl, spec, done)
+    if rewrote:
+        f.notes.append("the backward goto to a label of the function's statement list is a `while (1) { ...; break; }' "
+                       "whose `continue' is the goto")
     loops = any(d.get("kind") in ("WhileStmt", "ForStmt") or
                 (d.get("kind") == "DoStmt" and d["inner"][1].get("value") != "0") for d in walk(f.body))
     for d in walk(f.body):
